@@ -32,7 +32,11 @@ def gen_case(rng, nmax):
     M = rng.randint(m, max(m, n))
     Kb = rng.choice([0, 1, 2, 3, Fraction(1, 2), Fraction(5, 2)])  # sparse beta for collective anomalies (exact)
     kind = rng.choice(["equal", "general"])
-    pb = [rng.randint(0, 4)] * p if kind == "equal" else sorted(rng.randint(0, 5) for _ in range(p))
+    if kind == "equal":
+        pb = [rng.randint(0, 4)] * p
+    else:  # any non-negative per-component terms: increasing, decreasing (like the intermediate family) or unordered
+        pb = [rng.randint(0, 9) for _ in range(p)]
+        pb = {"inc": sorted(pb), "dec": sorted(pb, reverse=True), "any": pb}[rng.choice(["inc", "dec", "dec", "any"])]
     return {"n": n, "p": p, "m": m, "M": M, "Kb": str(Kb), "ca": rng.randint(0, 4), "cb": [rng.randint(0, 2)] * p,
             "pa": rng.randint(0, 3), "pb": pb, "T": distinct_table(rng, n, p, rng.randint(2, 6)),
             "P": [rng.sample(range(0, 14), p) for _ in range(n)]}
@@ -125,7 +129,8 @@ def gen_builtin(rng, nmax):
         L = rng.choice([1, 1, m, m + 2])
         cols = rng.sample(range(p), rng.randint(1, p))
         for j in cols:
-            lv = rng.choice([3.0, 4.5, -5.5, 7.0, 9.5]) + 0.137 * j
+            # strong and borderline shifts: savings far above, between and below the per-column thresholds
+            lv = rng.choice([3.0, 4.5, -5.5, 7.0, 9.5, 0.5, 0.8, 1.1, 1.5, 2.0]) + 0.137 * j
             for i in range(a, min(n, a + L)):
                 X[i][j] += lv
     return {"n": n, "p": p, "m": m, "M": rng.choice([m + 2, 8, 100]), "X": X, "cfam": rng.choice(["sparse", "dense", "combined", "intermediate"]),
